@@ -191,7 +191,7 @@ def gateway_cases(draw):
         with_job = draw(st.booleans())
         rq = {"benchmark_name": None if with_job else draw(st.one_of(st.none(), json_text)),
               "envvars": draw(st.dictionaries(json_text, json_text, max_size=2)),
-              "job": draw(job_specs(max_tasks=4)) if with_job else None,
+              "job": draw(job_specs(max_tasks=4, with_serdes=True)) if with_job else None,
               "workers_per_host": draw(st.integers(0, 64)), "hosts": draw(st.integers(0, 64)), "use_slurm": draw(st.booleans())}
         rs = {"job_id": draw(st.one_of(st.none(), json_text)), "error": draw(opt_err)}
     elif req == "JobProgress":
@@ -208,7 +208,7 @@ def gateway_cases(draw):
 
 @st.composite
 def job_cases(draw):
-    return {"family": "job", "spec": draw(job_specs(max_tasks=8))}
+    return {"family": "job", "spec": draw(job_specs(max_tasks=8, with_serdes=True))}
 
 
 cases = st.one_of(shm_cases(), shm_cases(), msg_cases(), msg_cases(), report_cases(), gateway_cases(), job_cases())
